@@ -244,8 +244,15 @@ Definition failure_message (a : assertion) : text :=
 Record runner := mkRunner {
   test_elements : list test_element;
   r_cpu : cpu;
+  call_depth : Z;                    (* how many subroutine calls are open (jsr executed, its rts not yet) *)
   formatted_traces : list text
 }.
+
+(* the bookkeeping at the end of execute_instruction: `+= 1` on jsr, `saturating_sub(1)` on rts *)
+Definition count_call (opcode depth : Z) : Z :=
+  if opcode =? jsr_opcode then depth + 1
+  else if opcode =? rts_opcode then Z.max 0 (depth - 1)
+  else depth.
 
 Record test_failure := mkFailure {
   f_message : text;
@@ -313,12 +320,14 @@ Definition execute_instruction (r : runner) : execute_result :=
       | FPanic => ExecPanic
       | FFail a => TestFailed (mkFailure (failure_message a) (a_loc a) c traces)
       | FNone =>
-          let r1 := mkRunner (test_elements r) c traces in
+          let r1 := mkRunner (test_elements r) c (call_depth r) traces in
           if rd (rM c) pc =? end_of_test_opcode then TestSuccess r1
-          else match exec c with
-               | Some c' => Running (mkRunner (test_elements r) c' traces)
-               | None => OutOfSubset
-               end
+          else
+            let opcode := rd (rM c) pc in
+            match exec c with
+            | Some c' => Running (mkRunner (test_elements r) c' (count_call opcode (call_depth r)) traces)
+            | None => OutOfSubset
+            end
       end
   end.
 
@@ -357,7 +366,7 @@ Definition find_bank (banks : list bank) (name : text) : option bank :=
 (* None: `.unwrap()` on a missing bank (cannot happen after a successful merge_segments) *)
 Definition new_runner (banks : list bank) (t : test_case) : option runner :=
   match find_bank banks (tc_bank t) with
-  | Some b => Some (mkRunner (tc_elements t) (cpu_init (tc_pc t mod 65536) (load_program (b_start b) (b_data b))) [])
+  | Some b => Some (mkRunner (tc_elements t) (cpu_init (tc_pc t mod 65536) (load_program (b_start b) (b_data b))) 0 [])
   | None => None
   end.
 
@@ -368,40 +377,36 @@ Definition run_test (fuel : nat) (banks : list bank) (t : test_case) : verdict :
 Definition result_cpu (before : runner) (x : execute_result) : cpu :=
   match x with Running r | TestSuccess r => r_cpu r | TestFailed f => f_cpu f | _ => r_cpu before end.
 
-Fixpoint step_over_loop (fuel : nat) (wait_until_pc : Z) (r : runner) : option execute_result :=
+(* TestRunner::run_until_return: runs until the subroutine we are in returns; the calls made on the way are counted, so
+   the rts that ends the run is its own.  None = out of fuel (the Rust loop has no bound). *)
+Fixpoint run_until_return (fuel : nat) (nested_calls : Z) (r : runner) : option execute_result :=
   match fuel with
   | O => None
   | S f =>
-      let x := execute_instruction r in
-      match x with
-      | Running r' => if rPC (r_cpu r') =? wait_until_pc then Some x else step_over_loop f wait_until_pc r'
-      | _ => Some x
+      let opcode := rd (rM (r_cpu r)) (rPC (r_cpu r)) in
+      match execute_instruction r with
+      | Running r' =>
+          if opcode =? jsr_opcode then run_until_return f (nested_calls + 1) r'
+          else if opcode =? rts_opcode then
+            if nested_calls =? 0 then Some (Running r') else run_until_return f (nested_calls - 1) r'
+          else run_until_return f nested_calls r'
+      | x => Some x
       end
   end.
-(* None = out of fuel.  `get_program_counter() + 3` on u16 overflows (panic) at pc >= $FFFD *)
+
+(* on a jsr: enter the subroutine, then run until it returns; anything else: one instruction *)
 Definition step_over (fuel : nat) (r : runner) : option execute_result :=
   let c := r_cpu r in
-  if ram_read (rM c) (rPC c) =? 32 then
-    if 65535 <? rPC c + 3 then Some ExecPanic else step_over_loop fuel (rPC c + 3) r
+  if rd (rM c) (rPC c) =? jsr_opcode then
+    match execute_instruction r with
+    | Running r' => run_until_return fuel 0 r'
+    | x => Some x
+    end
   else Some (execute_instruction r).
 
-Fixpoint step_out_loop (fuel : nat) (will_return_to : Z) (r : runner) : option execute_result :=
-  match fuel with
-  | O => None
-  | S f =>
-      if rPC (r_cpu r) =? will_return_to then Some (Running r)
-      else match execute_instruction r with
-           | Running r' => step_out_loop f will_return_to r'
-           | x => Some x
-           end
-  end.
+(* outside any subroutine there is nothing to step out to *)
 Definition step_out (fuel : nat) (r : runner) : option execute_result :=
-  let c := r_cpu r in
-  if 253 <? rSP c then Some (Running r)
-  else
-    let sp_lo := ram_read (rM c) (256 + rSP c + 1) in
-    let sp_hi := ram_read (rM c) (256 + rSP c + 2) in
-    step_out_loop fuel ((1 + sp_lo + 256 * sp_hi) mod 65536) r.
+  if call_depth r =? 0 then Some (Running r) else run_until_return fuel 0 r.
 
 (* ---------- commands/test.rs::test_command and the process exit status ---------- *)
 Record report := mkReport {
